@@ -20,7 +20,13 @@ META = {
              "gives Spec.refOps — the eight documented ops over the decoded tree — of the parsed input; REMOVE_VAL with scalar values), "
              "untouched_target (siblings of the target, incl. one-segment paths), atomic_fold — all for arbitrary inputs; closed witnesses witness_unvalidated "
              "(SET x <- 0xc1 succeeds, body no longer parses) and witness_nan_equal (EQUAL NaN is met) refute the property for the "
-             "unrepaired fact values; classify_sound ties the decision to the extracted facts."),
+             "unrepaired fact values; classify_sound ties the decision to the extracted facts. THE WIRE: wire_cond_agrees / wire_op_agrees "
+             "(when the Go const blocks of CondOp / OpKind are the proto enums' tables — extracted from condition.go, apply.go and "
+             "hydraide.pb.go — and the conversion in gateway_patch.go range-checks, every wire number reaches the engine as the operator "
+             "the proto names, any other number as no operator), gw_refines (Gateway.PatchTreasures and PatchExpiredTreasures / "
+             "applyPatchExpiredOne do to the treasure what PatchFields does with the operators the request means), WireHolds is part "
+             "of the decided statement; witness_wire_truncated (unchecked cast: 256 = SET, 257 = NOT_EQUAL) and witness_wire_swapped; "
+             "every PatchFields line of the run is also sent through both RPCs with proto enum numbers (`gp` / `gx` lines)."),
     "note": ("Trusted: Lean kernel (propext, Classical.choice, Quot.sound); extract/c13.go; harness/c13.go; checks/C13.py. The model "
              "mirrors vmihailenco/msgpack v5.4.1 (Skip, DecodeMapLen/ArrayLen/String, generic Unmarshal with only the time extension "
              "registered) — validated by the correspondence run, not proved. PLATFORM ASSUMPTION: the payload bits of a NaN produced by INC (x + NaN, Inf + -Inf, float32(NaN)) are not defined by the Go "
@@ -47,6 +53,12 @@ FINDINGS = {
                                       "msgpack-encoded bytes equal Value`); the same value IS removed when it was appended earlier in the same patch",
     "C13-removeval-all-matches": "applyRemoveVal removes EVERY array element equal to Value: on {\"t\":[1,2,1]}, REMOVE_VAL t <- 1 leaves [2] "
                                  "(the docs: `the FIRST array element whose msgpack-encoded bytes equal Value` — [2,1])",
+    "C13-wire-enum-truncated": "gateway_patch.go turns PatchOp.Kind / PatchCondition.Op into the engine's uint8 enums by a bare type conversion: "
+                               "a wire number that is no operator but differs from one by a multiple of 256 is executed as that operator "
+                               "(Kind 256 = SET, Operator 257 = NOT_EQUAL) instead of being rejected like 8 or 99",
+    "C13-wire-enum-misaligned": "the Go const block of msgpackpatch.OpKind / CondOp is not in the order of the proto enum: a wire operator "
+                                "reaches the engine as another operator (PatchTreasures / PatchExpiredTreasures only; PatchFields callers "
+                                "that use the Go names are unaffected)",
     "C13-status-mapping": "classifyPatchError maps a msgpackpatch error class to another PatchFields status than documented "
                           "(CONDITION_NOT_MET / TYPE_MISMATCH / PATH_INVALID for path and invalid-op / ENCODING_NOT_SUPPORTED)",
     "C13-spliced-value-opaque": "a map / array value stored by SET / APPEND / PREPEND / MERGE is an opaque leaf for the rest of the same patch: "
@@ -759,7 +771,7 @@ def oracle_line(op, rep):
         elif rep.startswith("err "):
             return judge_error(body, cond, ops, GROUP.get(rep[4:]), "the patch was rejected with `%s`" % rep)
         return None
-    if op.startswith("pf "):
+    if op.startswith(("pf ", "gp ", "gx ")):
         return judge_pf(op, rep)
     return None
 
@@ -822,9 +834,29 @@ def judge_error(body, cond, ops, got_status, what):
     return None
 
 
+# hydraide.proto: PatchOp.Kind / PatchCondition.Op by number (the wire contract)
+DOC_OPS = ["set", "del", "inc", "app", "pre", "rmat", "rmval", "merge"]
+DOC_CONDS = ["eq", "ne", "gt", "ge", "lt", "le", "ex", "nex"]
+
+
+def _doc_tok(k, table):
+    """operator token of a gp / gx line → the operator it MEANS: `wN` is wire number N, no operator outside the enum"""
+    if k.startswith("w"):
+        n = int(k[1:])
+        return table[n] if 0 <= n < len(table) else "unk"
+    return k
+
+
+def _wire_far(tokens):
+    return any(t.startswith("w") and not 0 <= int(t[1:]) < 256 for t in tokens)
+
+
 def judge_pf(op, rep):
-    """PatchFields end-to-end: status, stored body, echoed body and meta against the documentation"""
+    """PatchFields end-to-end (`pf`), and the same call through Gateway.PatchTreasures (`gp`) / on an expired treasure
+    through Gateway.PatchExpiredTreasures (`gx`) with the proto enums: status, stored body, echoed body and meta
+    against the documentation"""
     f = op.split(" ")
+    verb = f[0]
     m = re.match(r"st=(\d+) (\S+) wf=(\d) new=(\S+) exp=(-?\d+) mat=(\d) mby=(\S+) cat=(\d) cby=(\S+)$", rep)
     if not m or len(f) < 6:
         return (None, "PatchFields reply `%s`" % rep)
@@ -837,6 +869,15 @@ def judge_pf(op, rep):
     create, seed, meta = f[2] == "1", unhex(f[3]), f[4]
     cond = None if f[5] == "-" else tuple(f[5].split(":"))
     ops = [tuple(x.split(":")) for x in f[6:]]
+    raw_toks = [o[0] for o in ops] + ([cond[0]] if cond else [])
+    far = verb != "pf" and _wire_far(raw_toks)       # a wire number outside 0‥255: no operator at all
+    if verb != "pf":
+        cond = None if cond is None else (_doc_tok(cond[0], DOC_CONDS),) + cond[1:]
+        ops = [(_doc_tok(k, DOC_OPS), p_, v_) for k, p_, v_ in ops]
+    if verb == "gx":
+        create, seed = False, b""
+    if verb == "gp" and stored.startswith("b:c700") and st in (0, 1):
+        new = stored[6:]                              # PatchTreasures does not echo the body
     mt = {} if meta == "-" else dict((t.split("=") + [""])[:2] for t in meta.split(","))
     # ---- what the documentation promises
     if st in (0, 1):
@@ -855,6 +896,9 @@ def judge_pf(op, rep):
     else:
         if stored != before or new != "-" or exp != exp0 or (mat, mby, cat, cby) != ("0", "-", "0", "-"):
             return (None, "PatchFields status %d but the treasure changed: %s → %s (exp %d → %d)" % (st, f[1], stored, exp0, exp))
+    if cond is not None and cond[0] == "unk" and st in (0, 1):
+        return ("C13-wire-enum-truncated" if far else None,
+                "the condition's operator %s is no PatchCondition.Op, but the patch was applied" % raw_toks[-1])
     # ---- expected status
     if before == "absent" and not create:
         want_st, body = 2, None
@@ -894,7 +938,7 @@ def judge_pf(op, rep):
             if st == want_st:
                 try:
                     if dec_all(unhex(new)) != out[1]:
-                        fid = rmval_cause(body, cond, ops, ("ok", dec_all(unhex(new))))
+                        fid = rmval_cause(body, cond, ops, ("ok", dec_all(unhex(new)))) or ("C13-wire-enum-truncated" if far else None)
                         return (fid, "PatchFields stored %s, which is not the document the documented semantics give" % new)
                 except Malformed:
                     return (None, "PatchFields stored a body the reference decoder rejects: %s" % new)
@@ -908,10 +952,13 @@ def judge_pf(op, rep):
                 except Malformed:
                     obs = None
             fid = rmval_cause(body, cond, ops, obs) if obs else None
+            if fid is None and far:
+                fid = "C13-wire-enum-truncated"
         if fid is None and body is not None and st not in (0, 1) and want_st not in (0, 1, None):
             fid = "C13-status-mapping"      # an op / condition error reported under another status
-        return (fid, "PatchFields replied %s (%d), the documented status is %s (%d)" %
-                (STATUS_NAME.get(st, "?"), st, STATUS_NAME.get(want_st, "?"), want_st))
+        return (fid, "%s replied %s (%d), the documented status is %s (%d)" %
+                ({"pf": "PatchFields", "gp": "PatchTreasures", "gx": "PatchExpiredTreasures"}[verb],
+                 STATUS_NAME.get(st, "?"), st, STATUS_NAME.get(want_st, "?"), want_st))
     return None
 
 
@@ -963,7 +1010,8 @@ def run(ctx):
         args = ["validatesValues=" + facts.get("validatesValues", "unknown"), "nanCompare=" + facts.get("nanCompare", "unknown"),
                 "magic=" + magic, "removeValCompare=" + facts.get("removeValCompare", "unknown"),
                 "smap=" + ",".join(facts.get(k, "x") for k in ("stCond", "stType", "stPath", "stOp", "stMsgpack", "stNonstr")),
-                "seedDefault=%02x" % int(facts.get("seedDefault", "0") if facts.get("seedDefault", "unknown") != "unknown" else 0)]
+                "seedDefault=%02x" % int(facts.get("seedDefault", "0") if facts.get("seedDefault", "unknown") != "unknown" else 0)] + \
+               ["%s=%s" % (k, facts.get(k, "unknown")) for k in ("opOrder", "condOrder", "protoOps", "protoConds", "wireConv")]
         c = K.correspondence(ctx, "C13", args, hx_env={"HYDRAIDE_LOG_LEVEL": "error"})
         corrs.append(("C13", args, c))
     else:
@@ -973,13 +1021,14 @@ def run(ctx):
     known = K.known_ids(ctx.pid)
     c = corrs[0][2] if corrs else K.Corr()
     # Spec oracle over every implementation reply (independent of the model)
-    oracle_hits, oracle_new = {}, []
+    oracle_hits, oracle_new, oracle_any = {}, [], set()
     mism = set(c.mismatch)
     for i, (op, rep) in enumerate(zip(c.ops, c.impl)):
         r = oracle_line(op, rep)
         if r is None:
             continue
         fid, text = r
+        oracle_any.add(i)
         if fid is None:
             oracle_new.append((i, text))
         else:
@@ -1007,7 +1056,7 @@ def run(ctx):
     # oracle may abstain (the reference has no opinion there), so only a finding with no oracle hit at all counts
     for i, fl in enumerate(c.flags):
         for fid in fl:
-            if i not in mism and not oracle_hits.get(fid):
+            if i not in mism and not oracle_hits.get(fid) and not any(fid in c.flags[j] for j in oracle_any):
                 rep = K.case_replay(c, [i])
                 rep.update({"correspondence": "C13", "finding": fid})
                 ctx.violation("model flags %s but the Spec oracle sees nothing wrong in the implementation's reply" % fid, rep,
@@ -1059,7 +1108,7 @@ def run(ctx):
             hist[k] = hist.get(k, 0) + 1
             if rep.startswith("out "):
                 n_ref += 1
-    distinct = len(set(l for l in c.ops if l.startswith(("ap ", "apn ", "pf ", "parse "))))
+    distinct = len(set(l for l in c.ops if l.startswith(("ap ", "apn ", "pf ", "gp ", "gx ", "parse "))))
     return K.finish(
         ctx, "proof",
         rule=("inputs = generated documents (depth ≤ 4, every leaf format code, fixmap/map16/map32 + fixarray/array16/array32 + "
